@@ -255,6 +255,7 @@ type b09Run struct {
 type b09Extra struct {
 	withSCI []*descriptorpb.FileDescriptorProto // form q
 	linked  []*descriptorpb.FileDescriptorProto // form P (outputs of a previous compilation)
+	wire    []*descriptorpb.FileDescriptorProto // form B (form P as loaded from its wire encoding: custom options are unknown bytes)
 	hand    []*descriptorpb.FileDescriptorProto // form H (form P with the propagated map key/value features stripped)
 	lfiles  []linker.File                       // form L
 	dfiles  []protoreflect.FileDescriptor       // form D
@@ -287,6 +288,8 @@ func (ws *b09WS) compile(asg string, mode protocompile.SourceInfoMode, ex *b09Ex
 			return protocompile.SearchResult{Proto: ex.linked[i]}, nil
 		case 'H':
 			return protocompile.SearchResult{Proto: ex.hand[i]}, nil
+		case 'B':
+			return protocompile.SearchResult{Proto: ex.wire[i]}, nil
 		case 'L':
 			return protocompile.SearchResult{Desc: ex.lfiles[i]}, nil
 		case 'D':
@@ -331,6 +334,9 @@ func (ws *b09WS) extraSnap(k int, e *b09Extra) []string {
 		}
 		if e.hand != nil {
 			out = append(out, fmt.Sprintf("H%d.%d:%s", k, i, b09Digest(b09Marshal(e.hand[i]))))
+		}
+		if e.wire != nil {
+			out = append(out, fmt.Sprintf("B%d.%d:%s", k, i, b09Digest(b09Marshal(e.wire[i]))))
 		}
 		if e.lfiles != nil {
 			full, _ := b09FileDigests(e.lfiles[i])
@@ -546,6 +552,47 @@ func b09ParseModes(s string) ([]protocompile.SourceInfoMode, bool) {
 
 var b09LastErr sync.Map
 
+// b09Canon re-encodes a descriptor proto through the wire with no extension types known, so
+// that a custom option held as a known extension and the same option held as unknown bytes
+// (a descriptor loaded from a file) compare equal, while duplicated or lost bytes still differ.
+func b09Canon(m *descriptorpb.FileDescriptorProto) []byte {
+	n := &descriptorpb.FileDescriptorProto{}
+	if err := (proto.UnmarshalOptions{Resolver: new(protoregistry.Types)}).Unmarshal(b09Marshal(m), n); err != nil {
+		return []byte("canon-error " + err.Error())
+	}
+	return b09Marshal(n)
+}
+
+func b09CanonDigest(f protoreflect.FileDescriptor) string {
+	return b09Digest(b09Canon(protoutil.ProtoFromFileDescriptor(f)), b09Canon(protodesc.ToFileDescriptorProto(f)))
+}
+
+// b09WireLoaded returns the proto as it looks after being written to and loaded from a file.
+func b09WireLoaded(m *descriptorpb.FileDescriptorProto) *descriptorpb.FileDescriptorProto {
+	n := &descriptorpb.FileDescriptorProto{}
+	_ = (proto.UnmarshalOptions{Resolver: new(protoregistry.Types)}).Unmarshal(b09Marshal(m), n)
+	return n
+}
+
+func b09RunDigestsFor(run b09Run, asg string) string {
+	if run.err != nil {
+		return b09RunDigests(run)
+	}
+	var ds []string
+	for i, f := range run.files {
+		if f == nil {
+			return "ERR"
+		}
+		if i < len(asg) && asg[i] == 'B' {
+			ds = append(ds, b09CanonDigest(f))
+			continue
+		}
+		full, _ := b09FileDigests(f)
+		ds = append(ds, full)
+	}
+	return strings.Join(ds, ",")
+}
+
 func b09RunDigests(run b09Run) string {
 	if run.err != nil {
 		b09LastErr.Store(b09ErrClass(run.err), true)
@@ -612,7 +659,7 @@ func (e *b09Engine) formsOp(kind string, w []string) string {
 		var refs []string
 		for i, f := range ref.files {
 			full, nosci := b09FileDigests(f)
-			refs = append(refs, full+"/"+nosci)
+			refs = append(refs, full+"/"+nosci+"/"+b09CanonDigest(f))
 			fdp := protoutil.ProtoFromFileDescriptor(f)
 			if kind == "forms" {
 				// form q: the unlinked proto carrying source code info. Under mode "none" it
@@ -638,6 +685,7 @@ func (e *b09Engine) formsOp(kind string, w []string) string {
 				// features that were propagated to synthetic map key/value fields removed again
 				ex.linked = append(ex.linked, proto.Clone(fdp).(*descriptorpb.FileDescriptorProto))
 				ex.hand = append(ex.hand, b09StripPropagated(fdp))
+				ex.wire = append(ex.wire, b09WireLoaded(fdp))
 			}
 			if kind == "relink" || kind == "relinkd" {
 				ex.lfiles = append(ex.lfiles, f)
@@ -653,7 +701,7 @@ func (e *b09Engine) formsOp(kind string, w []string) string {
 		case "noast":
 			alpha = "sn"
 		case "relink":
-			alpha = "PHL"
+			alpha = "PHBL"
 		case "relinkd":
 			alpha = "PD"
 			// form D: descriptors built by protobuf-go from the output protos
@@ -692,7 +740,7 @@ func (e *b09Engine) formsOp(kind string, w []string) string {
 			for _, a := range asgs {
 				ok := true
 				for i := range ws.paths {
-					if a[i] == 'P' || a[i] == 'H' {
+					if a[i] == 'P' || a[i] == 'H' || a[i] == 'B' {
 						continue
 					}
 					for _, d := range ws.bare[i].Dependency {
@@ -721,7 +769,7 @@ func (e *b09Engine) formsOp(kind string, w []string) string {
 		var A []string
 		for _, a := range asgs {
 			run := ws.compile(a, mode, ex, 0)
-			A = append(A, a+":"+b09RunDigests(run))
+			A = append(A, a+":"+b09RunDigestsFor(run, a))
 			ws.aliases(a, ex, run, &aliasMu, &X)
 			if (kind == "relink" || kind == "relinkd") && mi == 0 && a == strings.Repeat("P", n) {
 				if run.err != nil {
@@ -763,7 +811,7 @@ func (e *b09Engine) formsOp(kind string, w []string) string {
 					}
 				}()
 				run := ws.compile(a, mode, ex, 2)
-				cres[k] = a + ":" + b09RunDigests(run)
+				cres[k] = a + ":" + b09RunDigestsFor(run, a)
 				ws.aliases(a, ex, run, &aliasMu, &X)
 			}(k, a)
 		}
@@ -824,6 +872,8 @@ func (ws *b09WS) aliases(asg string, ex *b09Extra, run b09Run, mu *sync.Mutex, o
 			sup = ex.linked[i]
 		case 'H':
 			sup = ex.hand[i]
+		case 'B':
+			sup = ex.wire[i]
 		default:
 			continue
 		}
@@ -1778,6 +1828,93 @@ func b09FeatureFamily() [][]*b09N {
 	return out
 }
 
+// b09DerivedNames: field names that exercise every name derivation the compiler performs from
+// a field name and re-checks on descriptor-proto input: map entry type name
+// (PascalCase(field)+"Entry"), group field name (lower-cased group name), JSON name
+// (camelCase), proto3-optional synthetic oneof name ("_x", "X_x", ...). Candidates the real
+// compiler rejects from source are dropped silently by the caller.
+func b09DerivedNames() [][]*b09N {
+	var out [][]*b09N
+	one := func(fs ...*b09N) { out = append(out, fs) }
+	// (not used: "_1", "_9_" - protocompile accepts them as map fields although the derived entry
+	// type name "1Entry" is not an identifier; protobuf-go refuses to build such a descriptor)
+	names := []string{"line_2", "a_1b", "y_1", "x__2", "_x", "x_", "__y", "a", "Z", "fooBar", "FOO", "aB_cD", "x2", "x2y", "x_2y", "_", "a__", "b_9_",
+		"very_long_field_name_with_many_words_and_1_digit_9x_and_some_more_words_to_be_long"}
+	groups := []string{"Line_2", "A_1b", "X__2", "FooBar", "FOO", "AB_cD", "X2", "G_", "Z", "L_2_x"}
+	mapf := func(k, v, name string, num int) *b09N {
+		return &b09N{K: 'm', A: []string{k, v, name, strconv.Itoa(num), "-"}}
+	}
+	for _, syn := range []string{"2", "3", "e"} {
+		lbl := "o"
+		if syn != "2" {
+			lbl = "n"
+		}
+		for _, nm := range names {
+			one(b09File("a.proto", syn, "p", b09Msg("A", mapf("string", "int32", nm, 1))))
+			one(b09File("a.proto", syn, "p", b09Msg("A", mapf("int32", "A", nm, 1), b09Fld(lbl, "int32", "other", 2))))
+			one(b09File("a.proto", syn, "p", b09Msg("A", b09Fld(lbl, "string", nm, 1), b09Fld("r", "A", "rep", 2))))
+			if syn == "3" {
+				one(b09File("a.proto", syn, "p", b09Msg("A", b09Fld("o", "int32", nm, 1))))
+				one(b09File("a.proto", syn, "p", b09Msg("A", b09Fld("o", "int32", nm, 1), b09Fld("o", "A", "X"+nm, 2), mapf("string", "string", "m"+nm, 3))))
+			}
+			// inside a oneof, inside a nested message, as an extension
+			one(b09File("a.proto", syn, "p", b09Msg("A", b09Msg("B", mapf("string", "B", nm, 1)),
+				&b09N{K: 'O', A: []string{"choice"}, Body: []*b09N{b09Fld("n", "int32", nm, 2), b09Fld("n", "string", "alt", 3)}})))
+		}
+		if syn == "2" {
+			for _, gn := range groups {
+				one(b09File("a.proto", syn, "p", b09Msg("A", &b09N{K: 'g', A: []string{"o", gn, "1"}, Body: []*b09N{b09Fld("o", "int32", "v", 1)}})))
+				one(b09File("a.proto", syn, "p", b09Msg("A", &b09N{K: 'g', A: []string{"r", gn, "1"}, Body: []*b09N{mapf("string", gn, "m_1", 1)}},
+					&b09N{K: 'O', A: []string{"o"}, Body: []*b09N{{K: 'g', A: []string{"n", gn + "O", "2"}}}},
+					&b09N{K: 'r', A: []string{"1", "100", "199"}}),
+					&b09N{K: 'X', A: []string{"A"}, Body: []*b09N{{K: 'g', A: []string{"o", gn + "X", "100"}}}}))
+			}
+		}
+		// several together in one message (sets without JSON-name collisions)
+		for _, set := range [][]string{{"line_2", "a_1b", "x2y", "fooBar"}, {"y_1", "x__2", "FOO"}, {"x_", "aB_cD", "x2"}, {"_x", "a", "Z"}, {"__y", "x_2y", "a__"}} {
+			var ms, fs, os []*b09N
+			for i, nm := range set {
+				ms = append(ms, mapf("string", "int32", nm, i+1))
+				fs = append(fs, b09Fld(lbl, "int32", nm, i+1))
+				os = append(os, b09Fld("o", "int32", nm, i+1))
+			}
+			one(b09File("a.proto", syn, "p", b09Msg("A", ms...)))
+			one(b09File("a.proto", syn, "p", b09Msg("A", fs...)))
+			if syn != "e" {
+				one(b09File("a.proto", syn, "p", b09Msg("A", os...)))
+			}
+			mixed := []*b09N{mapf("string", "A", set[0], 1), b09Fld(lbl, "string", set[1], 2)}
+			if len(set) > 2 {
+				mixed = append(mixed, &b09N{K: 'f', A: []string{"r", "int32", set[2], "3", "J" + set[2]}})
+			}
+			one(b09File("a.proto", syn, "p", b09Msg("A", mixed...)),
+				b09File("b.proto", syn, "q", b09Leaf('I', "a.proto"), b09Msg("B", mapf("int32", "p.A", set[0], 1), mapf("string", "string", set[1], 2))))
+		}
+	}
+	// an editions file with a CUSTOM feature (extension of google.protobuf.FeatureSet) set on a
+	// map field, a plain field and at file level: the feature value is propagated to the
+	// synthetic key/value fields on every compile
+	fld := func(lbl, typ, name string, num int, opts ...string) *b09N {
+		return &b09N{K: 'f', A: []string{lbl, typ, name, strconv.Itoa(num), "-"}, Opts: opts}
+	}
+	cf := func() *b09N {
+		return b09File("cf.proto", "e", "cf", b09Leaf('I', "google/protobuf/descriptor.proto"),
+			b09Msg("MyFeatures",
+				&b09N{K: 'N', A: []string{"Mode"}, Body: []*b09N{{K: 'V', A: []string{"MODE_UNKNOWN", "0"}}, {K: 'V', A: []string{"MA", "1"}}, {K: 'V', A: []string{"MB", "2"}}}},
+				fld("n", "Mode", "mode", 1, "retention = RETENTION_RUNTIME", "targets = TARGET_TYPE_FIELD", "targets = TARGET_TYPE_FILE", "targets = TARGET_TYPE_MESSAGE",
+					"feature_support = { edition_introduced: EDITION_2023 }", `edition_defaults = { edition: EDITION_LEGACY, value: "MA" }`)),
+			&b09N{K: 'X', A: []string{"google.protobuf.FeatureSet"}, Body: []*b09N{fld("n", "MyFeatures", "my", 9990)}})
+	}
+	one(cf(), b09File("a.proto", "e", "p", b09Leaf('I', "cf.proto"), b09Msg("A",
+		&b09N{K: 'm', A: []string{"string", "string", "m", "1", "-"}, Opts: []string{"features.(cf.my).mode = MB"}})))
+	one(cf(), b09File("a.proto", "e", "p", b09Leaf('I', "cf.proto"), b09Msg("A",
+		&b09N{K: 'm', A: []string{"string", "string", "m", "1", "-"}, Opts: []string{"features.(cf.my).mode = MB", "features.utf8_validation = NONE"}},
+		fld("n", "string", "s", 2, "features.(cf.my).mode = MB"))))
+	one(cf(), b09File("a.proto", "e", "p", b09Leaf('I', "cf.proto"), b09Leaf('o', "features.(cf.my).mode = MB"), b09Msg("A",
+		&b09N{K: 'm', A: []string{"int32", "A", "m", "1", "-"}}, fld("n", "string", "s", 2, "features.(cf.my).mode = MA"))))
+	return out
+}
+
 func b09Modes(tier string, i int) string {
 	if tier == "thorough" {
 		return "0,1,2,4,6"
@@ -1808,6 +1945,14 @@ func (e *b09Engine) Gen(r *Rand, tier string) [][]string {
 			wss = append(wss, ws)
 		}
 	}
+	for i, ws := range b09DerivedNames() {
+		if e.name == "forms" && tier != "thorough" && i%2 == 1 {
+			continue // quick forms run: every second workspace of this family (all of them in relink / clone)
+		}
+		if b09Accepted(ws) {
+			wss = append(wss, ws)
+		}
+	}
 	nSmall := len(wss)
 	rejected := 0
 	want := 45
@@ -1816,7 +1961,7 @@ func (e *b09Engine) Gen(r *Rand, tier string) [][]string {
 	}
 	if tier == "thorough" {
 		if e.name == "forms" {
-			want *= 3 // the thorough forms run is executed under the race detector (about 10x slower)
+			want *= 2 // the thorough forms run is executed under the race detector (about 10x slower)
 		} else {
 			want *= 10
 		}
